@@ -1,0 +1,5 @@
+//go:build !verif
+
+package go9p
+
+func verifPoint(string, interface{}) {}
